@@ -816,3 +816,80 @@ Proof.
       cbn [header node_size recs leaf_recs leaf_type h_type h_node_size h_rec_size h_depth h_split h_merge h_nroot h_total].
       rewrite <- Hn. repeat split; assumption.
 Qed.
+
+(* ---- histories ---- *)
+Definition is_store (o : op) : bool := match o with OStoreLoad => true | _ => false end.
+Fixpoint count_stores (ops : list op) : nat :=
+  match ops with [] => O | o :: r => ((if is_store o then 1 else 0) + count_stores r)%nat end.
+
+(* all file addresses handed out by the allocator fit the offset size *)
+Definition addr_ok (c : cfg) (ops : list op) : Prop :=
+  64 + N.of_nat (count_stores ops) * (ns_of c + hsz c) <= lim c.
+
+Lemma step_next c w o : cfg_ok c -> c_mode c = MOff -> winv c w -> (o = OStoreLoad -> next w < lim c) ->
+  next (fst (step c w o)) = next w + (if is_store o then ns_of c + hsz c else 0).
+Proof.
+  intros Hc Hm I Hb. destruct o as [n v|n v|n|n|n| |]; cbn [is_store]; rewrite ?N.add_0_r.
+  - cbn [step]. destruct (insert_record (bt w) n v). reflexivity.
+  - cbn [step]. destruct (update_record (bt w) n v). reflexivity.
+  - reflexivity.
+  - reflexivity.
+  - cbn [step]. destruct (delete_by_mode (c_mode c) (bt w) n). reflexivity.
+  - rewrite storeload_ok by (try assumption; apply Hb; reflexivity). cbn [fst next]. lia.
+  - destruct (N.eq_dec (loaded_hdr (bt w)) 0) as [Z|Z]; [rewrite rewrite_refused by exact Z; reflexivity|].
+    rewrite rewrite_ok by assumption. reflexivity.
+Qed.
+
+Lemma init_winv c : cfg_ok c -> c_mode c = MOff -> winv c (init c).
+Proof.
+  intros [Ho Hc] Hm. unfold init. rewrite Hm. cbn [setup_mode].
+  apply winv_intro; cbn [bt next]; try reflexivity.
+  - unfold ns_of in Hc. unfold st_wf, new_bt in *.
+    cbn [header node_size recs leaf_recs leaf_type h_type h_node_size h_rec_size h_depth h_split h_merge h_nroot h_total List.length] in *.
+    destruct Hc as (C1 & C2 & C3).
+    repeat split; try assumption; try reflexivity; try lia. constructor.
+  - unfold sorted_h. cbn. constructor.
+  - cbn. intro H. contradiction.
+Qed.
+
+Lemma run_from_winv c : cfg_ok c -> c_mode c = MOff -> forall ops w,
+  winv c w -> next w + N.of_nat (count_stores ops) * (ns_of c + hsz c) <= lim c ->
+  winv c (fst (run_from c w ops)).
+Proof.
+  intros Hc Hm. induction ops as [|o ops IH]; intros w I B; cbn [run_from]; [exact I|].
+  assert (Hb : o = OStoreLoad -> next w < lim c).
+  { intros ->. cbn [count_stores is_store] in B. unfold hsz, hdr_size in *. lia. }
+  pose proof (step_winv c w o Hc Hm I Hb) as I1.
+  pose proof (step_next c w o Hc Hm I Hb) as N1.
+  destruct (step c w o) as [w1 r1]. cbn [fst] in *.
+  specialize (IH w1 I1).
+  destruct (run_from c w1 ops) as [w2 rs2]. cbn [fst] in *. apply IH.
+  rewrite N1. cbn [count_stores] in B. destruct (is_store o); lia.
+Qed.
+
+Lemma ns_of_off c : ns_of (cfg_off c) = ns_of c.
+Proof. reflexivity. Qed.
+
+Lemma cfg_ok_off c : cfg_ok c -> cfg_ok (cfg_off c).
+Proof. intro H. exact H. Qed.
+
+(* C14_sorted_counts, every mode *)
+Theorem sorted_counts c ops : cfg_ok c -> addr_ok c ops ->
+  let s := bt (fst (run c ops)) in
+  sorted_h (recs s)
+  /\ h_nroot (header s) = N.of_nat (List.length (recs s))
+  /\ h_total (header s) = N.of_nat (List.length (recs s))
+  /\ leaf_recs s = recs s
+  /\ N.of_nat (List.length (recs s)) <= max_records (ns_of c).
+Proof.
+  intros Hc Ha. cbv zeta.
+  destruct (mode_irrelevant_strip c ops) as [A _].
+  assert (I : winv (cfg_off c) (fst (run (cfg_off c) ops))).
+  { unfold run. apply run_from_winv; [exact Hc|reflexivity|apply init_winv; [exact Hc|reflexivity]|].
+    unfold init. cbn [next]. exact Ha. }
+  rewrite <- A in I. destruct I as (W & Hn & Hs & _).
+  destruct W as (W1 & W2 & W3 & W4 & W5 & W6 & W7 & W8 & W9 & W10 & W11 & W12 & W13).
+  destruct (fst (run c ops)) as [[a1 a2 a3 a4 a5 a6 a7 a8] f n].
+  unfold strip, strip_bt, with_lazy in *. cbn [bt recs header leaf_recs node_size] in *.
+  rewrite Hn in W10. repeat split; assumption.
+Qed.
